@@ -6,6 +6,9 @@ import designs
 from common import Result, ask, rng_for, known_findings
 
 ASSUMPTIONS = [
+    "the model-level theorem C06_rows (Properties/C06.lean) says that prediction on any row list of "
+    "the training frame returns those rows of the training matrix, for every design outside the two "
+    "recorded defect classes; the items below tie it to the code",
     "Spec.C06.holds (new matrix = selected training rows, relative tolerance 1e-9) is evaluated by "
     "the Lean driver on the matrices the implementation returned, for all generated atoms incl. "
     "scale / bs / poly / nested transforms; the exact model is compared on the modelled atoms",
@@ -13,7 +16,6 @@ ASSUMPTIONS = [
     "frame) and a failure is a known finding only if the implementation's output also equals the "
     "model's (which mirrors both defects)",
 ]
-LEVEL = "translation_validation"    # until the model-level theorem C06_rows is merged
 TRUSTED = ["numpy/scipy floating point for scale, bs, poly (parameters are frozen: checked through "
            "the row identity itself)"]
 
@@ -100,7 +102,7 @@ def explore(tier, seed, res=None, replay=None):
         formula = f or gen_formula(r)
         res.evaluations += 1
         sels = selections(r, len(df))
-        news = [{"df": df.iloc[idx].reset_index(drop=True), "mode": "error"} for idx in sels]
+        news = [{"df": designs.scramble_index(r, df.iloc[idx]), "mode": "error"} for idx in sels]
         obs, req = designs.observe(formula, df, designs.NAMES, news)
         case = {"formula": formula, "seed_path": path}
         if req is None:
